@@ -169,6 +169,8 @@ class SimulationAlgorithm(BaseSimulationAlgorithm):
                 type_errors.append(
                     f"Parameter '{param}': Expected type {type_names}, given {type(value).__name__}"
                 )
+                # value checks are meaningless (and may raise) for a value of the wrong type
+                continue
             if param == "patient_number" and value <= 0:
                 value_errors.append(
                     "Patient number (patient_number) need to be a positive integer"
@@ -184,7 +186,7 @@ class SimulationAlgorithm(BaseSimulationAlgorithm):
                     "Parameter 'min_spacing_between_visits': Expected type int or float, "
                     f"given {type(value).__name__}"
                 )
-            if value < 0:
+            elif value < 0:
                 value_errors.append(
                     "Parameter 'min_spacing_between_visits' cannot be negative"
                 )
